@@ -171,6 +171,9 @@ def gen_chart_data(r: random.Random, kind: str, max_series=6, max_points=8, min_
             s = {"name": _label(r, 12), "values": [_num(r) for _ in range(nv)]}
             if r.random() < 0.15:
                 s["number_format"] = r.choice(NUMBER_FORMATS)
+            if nv and r.random() < 0.1:
+                # single data points with a number format of their own (add_data_point(value, number_format=...))
+                s["point_formats"] = {str(r.randrange(nv)): r.choice(NUMBER_FORMATS) for _ in range(r.choice([1, 2]))}
             series.append(s)
         rec["series"] = series
     else:
@@ -230,7 +233,12 @@ def build_chart_data(rec: dict):
         if "cat_number_format" in rec:
             cd.categories.number_format = rec["cat_number_format"]
         for s in rec["series"]:
-            cd.add_series(s["name"], s["values"], s.get("number_format"))
+            if s.get("point_formats"):
+                ser = cd.add_series(s["name"], (), s.get("number_format"))
+                for i_, v_ in enumerate(s["values"]):
+                    ser.add_data_point(v_, s["point_formats"].get(str(i_)))
+            else:
+                cd.add_series(s["name"], s["values"], s.get("number_format"))
         return cd
     cd = XyChartData(number_format=nf) if kind == "xy" else BubbleChartData(number_format=nf)
     for s in rec["series"]:
